@@ -1236,6 +1236,10 @@ class CanProtect(BaseSecurityContext, metaclass=abc.ABCMeta):
 class CanUnprotect(BaseSecurityContext):
     recipient_key: bytes
 
+    #: The Echo value by which Appendix B.1.2 recovery of the replay window is
+    #: recognized; None in contexts that do not take part in it.
+    echo_recovery: Optional[bytes] = None
+
     def unprotect(self, protected_message, request_id=None):
         _alglog.debug(
             "Unprotecting message %s with context %s and request ID %s",
